@@ -822,6 +822,7 @@ fn emit_one(otlp: &emit_otlp::Otlp, ev: &Ev, n: u64) {
     let seq_int = [1u64, 2, 3];
     let trace_id = emit::TraceId::from_u128(0x0123_4567_89ab_cdef_0123_4567_89ab_cdefu128 + n as u128).unwrap();
     let span_id = emit::SpanId::from_u64(0x0123_4567_89ab_cdefu64 + n).unwrap();
+    let (trace_text, span_text) = (trace_id.to_string(), span_id.to_string());
     let mut props: Vec<(&str, emit::Value)> = vec![("marker", emit::Value::from(ev.marker.as_str()))];
     if !filler.is_empty() {
         props.push(("payload", emit::Value::from(filler.as_str())));
@@ -845,8 +846,25 @@ fn emit_one(otlp: &emit_otlp::Otlp, ev: &Ev, n: u64) {
         Kind::Span => {
             props.push(("evt_kind", kind_value(n, &KIND_SPAN, &owned_span, "span")));
             props.push(("span_name", emit::Value::from("sim span")));
-            props.push(("trace_id", emit::Value::from_any(&trace_id)));
-            props.push(("span_id", emit::Value::from_any(&span_id)));
+            // a span is a span with or without ids (built by hand outside any span context, or through a runtime
+            // without a random source); ids come typed, as text, one without the other, or as text that is no id
+            match (n / 4) % 7 {
+                0 | 1 => {
+                    props.push(("trace_id", emit::Value::from_any(&trace_id)));
+                    props.push(("span_id", emit::Value::from_any(&span_id)));
+                }
+                2 => {
+                    props.push(("trace_id", emit::Value::from(trace_text.as_str())));
+                    props.push(("span_id", emit::Value::from(span_text.as_str())));
+                }
+                3 => props.push(("trace_id", emit::Value::from_any(&trace_id))),
+                4 => props.push(("span_id", emit::Value::from_any(&span_id))),
+                5 => {}
+                _ => {
+                    props.push(("trace_id", emit::Value::from("not-a-trace-id")));
+                    props.push(("span_id", emit::Value::from(17i64)));
+                }
+            }
         }
         Kind::Metric => {
             props.push(("evt_kind", kind_value(n, &KIND_METRIC, &owned_metric, "metric")));
